@@ -239,6 +239,31 @@ def generate(seed: int, tier: str) -> Dict[str, Any]:
         t = lambda i: {"op": "turn", "agent": agent, "text": text, "turn_id": i, "now_ms": E.T0_MS}  # noqa: E731
         ops = [t(0), {"op": "fork_state", "kind": "state"}, ep("left"), t(1), {"op": "switch_state", "kind": "state"}, ep("right"), t(2),
                {"op": "switch_state", "kind": "state"}, t(3)]
+    if r.chance(0.06) and len(world.get("episodes") or []) >= 3:
+        # a co-activation graph that only DECAYS between identical questions (nothing is observed again: the observation threshold
+        # is out of reach): edge weights cross the reranker's edge threshold from one turn to the next
+        agent, text = sorted(world["agents"])[0], ro.choice(texts if texts else ["apple river"])
+        ids = [e["id"] for e in world["episodes"]]
+        ge = {}
+        for _ in range(r.randint(2, 5)):
+            a, b = r.sample(ids, 2)
+            s, d = (a, b) if a <= b else (b, a)
+            ge["%s\u2192%s" % (s, d)] = {"id": "%s\u2192%s" % (s, d), "src": s, "dst": d, "weight": r.choice([0.21, 0.3, 0.45, 0.9]), "rel": "coact",
+                                         "updated_at": None, "attrs": {"coact": 3, "last_seen_turn": 0}}
+        for w in (world, world_b):
+            w["gel"] = {"nodes": {}, "edges": copy.deepcopy(ge), "meta": {"schema": "v1.1", "merges": [], "splits": [], "promotions": [],
+                                                                           "concept_nodes_count": 0, "edges_count": len(ge)}}
+            for e in w.get("episodes") or []:
+                e["owner"] = e.get("owner") if e.get("owner") in ("world",) else agent
+        raw["graph"] = {"enabled": True, "coactivation_threshold": 1.0, "decay": {"half_life_turns": r.choice([1, 2]), "floor": 0.0},
+                        "update": {"mode": "additive", "alpha": 0.3}}
+        raw.setdefault("t2", {}).update({"sim_threshold": -1.0, "owner_scope": "any",
+                                         "hybrid": {"enabled": True, "edge_threshold": 0.2, "lambda_graph": 0.9, "anchor_top_m": 3}})
+        raw["t2"]["cache"] = {"max_entries": 512, "ttl_s": 10_000_000}
+        raw["t2"].pop("quality", None)
+        raw.setdefault("t4", {})["enabled"] = True
+        raw.pop("scheduler", None)
+        ops = [{"op": "turn", "agent": agent, "text": text, "turn_id": i, "now_ms": E.T0_MS} for i in range(r.randint(3, 5))]
     return {"world": world, "world_b": world_b, "cfg": raw, "ops": ops}
 
 
